@@ -1,5 +1,6 @@
 import YaqsModel.Basic.Parse
 import YaqsModel.Model.Lottery
+import YaqsModel.Model.Dissipation
 /-!
 line protocol for the jump lottery (C01 / C03).  Segments are separated by `|`, processes and gates by `;`.
 
@@ -15,6 +16,14 @@ line protocol for the jump lottery (C01 / C03).  Segments are separated by `|`, 
   branch r dp                   → `nojump` | `jump`
   local a b | procs             → signatures of the local noise model, in order (`-` if empty)
   trace | procs | gates         → operation list of `digital_tjm`
+
+  extension (Model.Dissipation):
+  diss L dt | procs             → operation list of `apply_dissipation` (`Q<i>` `V<i>` `s <i|*> <c>` `x1 <i> <c·L†L>` `x2 <i-1> <i> <c·L†L>` `raise`)
+  dissnone L dt                 → the same for `noise_model = None`
+  dissany L dt | procs          → the `any`-variant of the early return (counterexample only; never requested by the harness)
+  pipe L mode numMid | procs | instr ; instr ; …   → whole event list of a noisy `digital_tjm`
+  pipenone L mode numMid | instr ; …               → the same for `noise_model = None`
+      instr = `g1 <tag> <q>` · `g2 <tag> <a> <b>` · `m <q> <c>` · `b <label> <q…>` (label `-` or `L<code>,<code>,…`), mode = ss|sp|weak
 -/
 open Yaqs Yaqs.Lottery
 
@@ -122,6 +131,96 @@ def closedAverage (L : Nat) (procs : List Proc) (dt : Rat) (v : Vec) : Option (L
     else outer 0 v
   some (terms.foldl addVec (outer 1 v))
 
+
+/-! ### extension: dissipation sweep and noisy pipeline (Model.Dissipation) -/
+
+open Yaqs.Dissipation in
+def showMatEntries (m : Mat) : String := showCRs (m.flatMap id)
+
+open Yaqs.Dissipation in
+/-- one operation of `apply_dissipation`; `none` = the process payload does not fit the operation (`KeyError` in the code) -/
+def showDissOp (procs : List Proc) : Dissipation.Op → Option String
+  | .qr i => some s!"Q{i}"
+  | .svd i => some s!"V{i}"
+  | .raise _ => some "raise"
+  | .app _ [i] c .scalar => some ("s " ++ (if c = 0 then "*" else toString i) ++ " " ++ showRat c)
+  | .app k [i] c .site =>
+    match procs[k]? with
+    | some ⟨_, _, _, .mat m⟩ => if m.length = 2 then some (s!"x1 {i} " ++ showMatEntries (scaledGram c m)) else none
+    | _ => none
+  | .app k [a, b] c .pair =>
+    match procs[k]? with
+    | some ⟨_, _, _, .mat m⟩ => if m.length = 4 then some (s!"x2 {a} {b} " ++ showMatEntries (scaledGram c m)) else none
+    | _ => none
+  | _ => none
+
+def showDissOps (procs : List Proc) (ops : List Dissipation.Op) : String :=
+  match ops.mapM (showDissOp procs) with
+  | some ss => if ss.isEmpty then "-" else joinWith " " ss
+  | none => "bad-op"
+
+def parseLabelD? (w : String) : Option (Option (List Nat)) :=
+  if w = "-" then some none
+  else if w.startsWith "L" then
+    let body := (w.drop 1).toString
+    if body = "" then some (some [])
+    else
+      match parseAll? String.toNat? (body.splitOn ",") with
+      | some cs => if cs.all (· < 128) then some (some cs) else none
+      | none => none
+  else none
+
+def parseInstrD? : List String → Option Layers.RawInstr
+  | ["g1", t, q] => do pure (.gate1 (← t.toNat?) (← q.toNat?))
+  | ["g2", t, a, b] => do
+    let a' ← a.toNat?
+    let b' ← b.toNat?
+    if a' = b' then none else pure (.gate2 (← t.toNat?) a' b')
+  | ["m", q, c] => do pure (.measure (← q.toNat?) (← c.toNat?))
+  | "b" :: l :: qs => do
+    let lab ← parseLabelD? l
+    let qs' ← parseAll? String.toNat? qs
+    if qs'.isEmpty then none else pure (.barrier qs' lab)
+  | _ => none
+
+def parseModeD? : String → Option Layers.Mode
+  | "ss" => some .strongSample
+  | "sp" => some .strongPlain
+  | "weak" => some .weak
+  | _ => none
+
+/-- one pipeline event; the operations inside `apply_dissipation` are printed against the *local* process list of the
+    lottery that follows them, so the printer threads the list of the block it is in -/
+def showPEvs (evs : List Dissipation.PEv) : Option (List String) :=
+  let rec go : List Dissipation.PEv → Option (List String)
+    | [] => some []
+    | .app1 t q :: r => (go r).map (s!"a1:{t}:{q}" :: ·)
+    | .app2 t a b :: r => (go r).map (s!"a2:{t}:{a}:{b}" :: ·)
+    | .lot dt ps :: r => (go r).map (("S:" ++ showRat dt ++ ":" ++ showProcs ps) :: ·)
+    | .normalize :: r => (go r).map ("N" :: ·)
+    | .eval c :: r => (go r).map (s!"e{c}" :: ·)
+    | .shots :: r => (go r).map ("shots" :: ·)
+    | .dop o :: r =>
+      -- the local list of this block is the argument of the next lottery event
+      let ps := (r.findSome? fun e => match e with
+        | .lot _ ps => some ps
+        | _ => none).getD []
+      match showDissOp ps o, go r with
+      | some s, some rest => some (s :: rest)
+      | _, _ => none
+  go evs
+
+def handlePipe (nm : Option (List Proc)) (Lw mw nw : String) (cw : List String) : String :=
+  match Lw.toNat?, parseModeD? mw, nw.toNat?, (splitSemi cw).mapM parseInstrD? with
+  | some L, some mode, some numMid, some raw =>
+    match Dissipation.noisyDigitalTjm nm L mode numMid (raw.map (Layers.classify Layers.isSampleLabel)) with
+    | none => "hang"
+    | some evs =>
+      match showPEvs evs with
+      | some ss => if ss.isEmpty then "-" else joinWith " " ss
+      | none => "bad-op"
+  | _, _, _, _ => "bad-op"
+
 def handle (line : String) : String :=
   match splitBar (words line) with
   | [["branch", r, dp]] =>
@@ -136,6 +235,23 @@ def handle (line : String) : String :=
     match parseProcs? pw, (splitSemi gw).mapM parseGate? with
     | some procs, some gs => joinWith " " ((digitalOps (some procs) gs).map showDOp)
     | _, _ => "bad-op"
+  | [["diss", Lw, dtw], pw] =>
+    match Lw.toNat?, parseRat? dtw, parseProcs? pw with
+    | some L, some dt, some procs => showDissOps procs (Dissipation.dissipationOps L (some procs) dt)
+    | _, _, _ => "bad-op"
+  | [["dissany", Lw, dtw], pw] =>
+    match Lw.toNat?, parseRat? dtw, parseProcs? pw with
+    | some L, some dt, some procs => showDissOps procs (Dissipation.dissipationOpsAny L (some procs) dt)
+    | _, _, _ => "bad-op"
+  | [["dissnone", Lw, dtw]] =>
+    match Lw.toNat?, parseRat? dtw with
+    | some L, some dt => showDissOps [] (Dissipation.dissipationOps L none dt)
+    | _, _ => "bad-op"
+  | [["pipe", Lw, mw, nw], pw, cw] =>
+    match parseProcs? pw with
+    | some procs => handlePipe (some procs) Lw mw nw cw
+    | none => "bad-op"
+  | [["pipenone", Lw, mw, nw], cw] => handlePipe none Lw mw nw cw
   | [["tracenone"], gw] =>
     match (splitSemi gw).mapM parseGate? with
     | some gs => joinWith " " ((digitalOps none gs).map showDOp)
